@@ -61,6 +61,10 @@ type DFS struct {
 	// MaxExec caps the number of executions (0 = none); hitting it is reported.
 	MaxExec int64
 	Workers int
+	// HangWatch registers every execution with the hang watchdog. Only for
+	// bodies whose whole execution takes far less than mc.HangLimit; bodies
+	// with long executions register their individual steps instead.
+	HangWatch bool
 }
 
 // DFSResult summarises an exploration.
@@ -87,7 +91,7 @@ type dfsState struct {
 func (st *dfsState) runOne(devs []Dev) (*Chooser, *Failure) {
 	c := &Chooser{devs: devs}
 	var f *Failure
-	if st.r != nil {
+	if st.r != nil && st.d.HangWatch {
 		done := InFlight(func() Case {
 			return Case{Harness: st.d.Name, Config: st.cfg, Trace: J(devs), Msg: "execution with these deviations", Step: -1}
 		})
